@@ -48,14 +48,36 @@ EDGE_ADDRS = frozenset((0x00000, 0xFFFFF, 0x100000, 0x1000FF))
 
 def touches_edge(py: Dict[str, Any], rs: Dict[str, Any]) -> bool:
     """True when either core accessed (read or wrote) the first or last byte of the external or the internal
-    space: the only situations in which an address wrap-around can take place."""
+    space, or emitted an address outside the canonical ranges (bits above 20 set, internal offset beyond 0xFF):
+    the only situations in which an address wrap-around can take place."""
     for side in (py, rs):
+        if side.get("noncanon"):
+            return True
         for a, _ in side.get("writes", []):
             if a in EDGE_ADDRS:
                 return True
         for a in side.get("reads", []):
             if a in EDGE_ADDRS:
                 return True
+    return False
+
+
+def _accessed(side: Dict[str, Any]) -> set:
+    acc = set(side.get("reads", []))
+    acc.update(a for a, _ in side.get("writes", []))
+    return acc
+
+
+def window_alias(py: Dict[str, Any], rs: Dict[str, Any]) -> bool:
+    """True when one core accessed external address a (< 0x100) while the other accessed internal address
+    0x100000 + a instead: bits 20-23 of an absolute address / pointer selected the internal window on one core
+    only (Python masks 20-bit immediates and pointers, Rust passes 24 bits to the bus)."""
+    ap, ar = _accessed(py), _accessed(rs)
+    for a in range(0x100):
+        i = 0x100000 + a
+        if (a in ap and a not in ar and i in ar and i not in ap) or \
+           (a in ar and a not in ap and i in ap and i not in ar):
+            return True
     return False
 
 
@@ -126,6 +148,8 @@ def compare_step(case: Dict[str, Any], py: Dict[str, Any], rs: Dict[str, Any], i
         sub = ",".join(sorted(d.split(":")[0] for d in diffs))
         if touches_edge(py, rs):
             where = where + " @edge"
+        elif window_alias(py, rs):
+            where = where + " @alias"
         out.append(Violation(sub, where, "; ".join(diffs), case, "; ".join(details)))
     return out
 
